@@ -192,7 +192,7 @@ def through_accessors(F, e):
     return e
 
 
-def inner_calls(F, ub, f0):
+def inner_calls(F, ub, f0, inner=None):
     """calls (in the method body and its closures) whose receiver is exactly self.<f0>, self, or self.<f0>.store"""
     out = []
     for b in [ub] + all_closures(F, ub):
@@ -204,6 +204,15 @@ def inner_calls(F, ub, f0):
             rb, rs = resolve_to_root(F, b, r)
             rs = through_accessors(F, rs).strip()
             if rb is not ub or rs.kind != 'place' or rs.root != ('param', 1):
+                # the wrapped value handed to a closure as its own parameter by a private helper of the wrapper
+                # (`self.unlocked(|tracker| tracker.wasted())`): inside a method of the wrapper the only value of the wrapped
+                # type is self.<f0> (no constructor of that type is called in the method)
+                if inner and rb is not ub and rb.kind == 'Closure' and rs.kind == 'place' and rs.root[0] == 'param' and \
+                        not rs.fields and rs.root[1] < len(rb.locals) and \
+                        str(rb.locals[rs.root[1]]).replace('&mut ', '').replace('&', '').strip() == inner and \
+                        not any(c2.callee.startswith(inner + '::new') for hb in [ub] + all_closures(F, ub)
+                                for c2 in hb.find_calls()):
+                    out.append((c, (f0,), b))
                 continue
             out.append((c, rs.fields, b))
     return out
@@ -255,7 +264,7 @@ def delegation(ctx, R):
                                   c.rsplit('::', 2)[-2] + '::' + c.rsplit('::', 1)[-1] for c in names if '::' in c))[:6]))
                 continue
             accept = set(ALIAS.get(fn, []) + ALIAS.get(x, []) + [fn, x])
-            calls = inner_calls(F, ub, f0)
+            calls = inner_calls(F, ub, f0, inner)
             good = []
             if fn == 'shard_stats':
                 # `self.0.get_main_store().shard_stats()`: the live store reached through the tracker's own accessor
